@@ -228,8 +228,9 @@ End RawFd.
 Arguments read_volatile_raw_fd {F}. Arguments write_volatile_raw_fd {F}.
 
 (* Instances of the OS oracle used by the correspondence runs (assumptions about the kernel, not
-   about vm-memory): a regular file with an offset, and a byte queue (pipe / UnixStream whose
-   writing peer has shut down; what is written goes to the peer, collected in s_out). *)
+   about vm-memory): a regular file with an offset, a byte queue (pipe / UnixStream whose
+   writing peer has shut down; what is written goes to the peer, collected in s_out), and a MESSAGE
+   queue (msgq_read / msgq_write below). *)
 Definition file_read (st : sstate) (len : N) : sstate * os_rres :=
   let bs := ntake len (ndrop (s_pos st) (s_data st)) in
   (set_pos st (s_pos st + nlen bs), OsData bs).
@@ -242,3 +243,30 @@ Definition queue_read (st : sstate) (len : N) : sstate * os_rres :=
   ({| s_data := ndrop len (s_data st); s_pos := s_pos st; s_out := s_out st |}, OsData (ntake len (s_data st))).
 Definition queue_write (st : sstate) (bs : list N) : sstate * os_wres :=
   ({| s_data := s_data st; s_pos := s_pos st; s_out := s_out st ++ bs |}, OsCount (nlen bs)).
+
+(* A message queue: non-blocking AF_UNIX SOCK_SEQPACKET / SOCK_DGRAM socketpair whose peer stays open.
+   [s_data] holds the queued messages in order, each followed by the marker MSG_END = 256 (payload
+   bytes are < 256; an empty message is a bare marker); [s_out] collects the messages sent to the peer in
+   the same encoding.  What the kernel does (net/unix/af_unix.c unix_dgram_recvmsg / unix_dgram_sendmsg,
+   net/socket.c sock_read_iter; checked on the running kernel by the twin runs of the C13 harness):
+     read(2), len > 0   dequeues ONE message and delivers its first len bytes; the excess of a longer
+                        message is discarded (MSG_TRUNC); an empty message gives 0; an empty queue EAGAIN
+     read(2), len = 0   returns 0 and leaves the queue alone ("Match SYS5 behaviour")
+     write(2)           enqueues ONE message holding the whole buffer (also when the buffer is empty)
+   This is the stream kind that delivers a request in PIECES without any timing: one read(2) never
+   returns more than one message, so read_exact_volatile has to go round its loop. *)
+Definition MSG_END : N := 256.
+Fixpoint msg_split (l : list N) {struct l} : list N * list N :=
+  match l with
+  | [] => ([], [])
+  | x :: t => if x =? MSG_END then ([], t) else let '(m, r) := msg_split t in (x :: m, r)
+  end.
+Definition msgq_read (st : sstate) (len : N) : sstate * os_rres :=
+  if len =? 0 then (st, OsData [])
+  else match s_data st with
+       | [] => (st, OsRErr EOther)                                                  (* EAGAIN / WouldBlock *)
+       | _ => let '(m, r) := msg_split (s_data st) in
+              ({| s_data := r; s_pos := s_pos st; s_out := s_out st |}, OsData (ntake len m))
+       end.
+Definition msgq_write (st : sstate) (bs : list N) : sstate * os_wres :=
+  ({| s_data := s_data st; s_pos := s_pos st; s_out := s_out st ++ bs ++ [MSG_END] |}, OsCount (nlen bs)).
